@@ -42,7 +42,9 @@ def write_set(src):
     return W
 
 
-def check_reset(reg, src, prop):
+def check_reset(reg, src, prop, status0=2, label=""):
+    """reset() from an arbitrary run state: any number n >= 0 of recorded steps (a fault inside the very first step leaves n == 0), the
+    status of the last call `status0` (terminated by an event, or the exception object of a failed call)."""
     fi = src.func(F, "OdeSystem.reset")
     for dense in (False, True):
         ex = Executor(src, reg, prop=prop)
@@ -67,13 +69,13 @@ def check_reset(reg, src, prop):
         st.assume(tf != t0)
         st.assume(dt0 != 0)
         fields = {"counter": n, "_OdeSystem__t": SeqVal(t_arr, n + 1), "_OdeSystem__y": SeqVal(y_arr, n + 1), "_OdeSystem__sol": old_sol, "_OdeSystem__dt": z3.Real("dt_run"),
-                  "_OdeSystem__int_status": 2, "_OdeSystem__events": events, "integrator": old_integ, "equ_rhs": rhs,
+                  "_OdeSystem__int_status": status0, "_OdeSystem__events": events, "integrator": old_integ, "equ_rhs": rhs,
                   "_OdeSystem__tf": tf, "_OdeSystem__t0": t0, "_OdeSystem__method": method, "_OdeSystem__rtol": Opaque("rtol"), "_OdeSystem__atol": Opaque("atol"),
                   "_OdeSystem__consts": None, "staggered_mask": None, "_OdeSystem__dense_output": dense, "_OdeSystem__dt0": dt0, "dim": (), "device": None,
                   "_OdeSystem__inferred_backend": "numpy", "_OdeSystem__array_con_kwargs": None}
         settings_before = {k: v for k, v in fields.items() if k.replace("_OdeSystem", "") in SETTINGS}
         selfobj = st.new_obj("OdeSystem", fields=fields)
-        ctx = Ctx(fi, None, fi.cls, tag="OdeSystem.reset[dense=%s]" % dense)
+        ctx = Ctx(fi, None, fi.cls, tag="OdeSystem.reset[dense=%s%s]" % (dense, label))
         paths = ex.call_function(fi, [selfobj], {}, st, ctx)
         pre = "%s/%s/" % (prop, ctx.tag)
         for k, (s, v) in enumerate(paths):
@@ -145,7 +147,56 @@ def frame_completeness(reg, src):
         elif a not in SETTINGS:
             unclassified.append((attr, sorted(fns)))
     if unclassified:
-        reg.undecided(PID + "/OdeSystem/frame-completeness", "frame", "OdeSystem", "attributes written outside __init__ that the sidecar does not classify: %r" % (unclassified,))
+        # an attribute the sidecar does not know: it is run state -- and a violation -- if integrate() (transitively) both writes and
+        # reads it while reset() (transitively) never writes it: what one run leaves there steers the next run after a reset.  Anything
+        # else (a new setting, a diagnostic that is only written) cannot be classified from the code: undecided.
+        text, tree = src.load(F)
+        cls = [n for n in tree.body if isinstance(n, ast.ClassDef) and n.name == "OdeSystem"][0]
+        meths = {}
+        for fn in cls.body:
+            if isinstance(fn, ast.FunctionDef):
+                meths.setdefault(fn.name, []).append(fn)
+
+        def reach(root):
+            seen, todo = set(), [root]
+            while todo:
+                m = todo.pop()
+                if m in seen or m not in meths:
+                    continue
+                seen.add(m)
+                for fn in meths[m]:
+                    for x in ast.walk(fn):
+                        if isinstance(x, ast.Attribute) and isinstance(x.value, ast.Name) and x.value.id == "self" and x.attr in meths:
+                            todo.append(x.attr)
+            return seen
+
+        def touches(ms, attr, store):
+            base = attr[:-5] if attr.endswith("[...]") else attr
+            for m in ms:
+                for fn in meths[m]:
+                    for x in ast.walk(fn):
+                        if isinstance(x, ast.Attribute) and isinstance(x.value, ast.Name) and x.value.id == "self" and x.attr == base:
+                            if not store and isinstance(x.ctx, ast.Load):
+                                return True
+                            if store and isinstance(x.ctx, ast.Store):
+                                return True
+                    if store:
+                        for x in ast.walk(fn):
+                            if isinstance(x, ast.Subscript) and isinstance(x.ctx, ast.Store) and isinstance(x.value, ast.Attribute) and isinstance(x.value.value, ast.Name) \
+                                    and x.value.value.id == "self" and x.value.attr == base:
+                                return True
+                            if isinstance(x, ast.Call) and isinstance(x.func, ast.Attribute) and x.func.attr in ("append", "update", "clear", "pop", "insert", "extend", "setdefault") \
+                                    and isinstance(x.func.value, ast.Attribute) and isinstance(x.func.value.value, ast.Name) and x.func.value.value.id == "self" and x.func.value.attr == base:
+                                return True
+            return False
+        run_ms, reset_ms = reach("integrate"), reach("reset")
+        stale = [(a, fns) for a, fns in unclassified if touches(run_ms, a, True) and touches(run_ms, a, False) and not touches(reset_ms, a, True)]
+        rest = [(a, fns) for a, fns in unclassified if (a, fns) not in stale]
+        if stale:
+            reg.ground(PID + "/OdeSystem.reset/state-that-integrate-writes-and-reads-is-re-established", "frame", "OdeSystem.reset", False, backend="ast-dataflow",
+                       detail="attributes written and read by integrate() (transitively) that reset() never writes: %r -- what a run leaves there steers the run after reset()" % (stale,))
+        if rest:
+            reg.undecided(PID + "/OdeSystem/frame-completeness", "frame", "OdeSystem", "attributes written outside __init__ that the sidecar does not classify: %r" % (rest,))
     else:
         reg.ground(PID + "/OdeSystem/frame-completeness", "frame", "OdeSystem", run_written <= RUN_STATE, backend="ast-scan",
                    detail="written outside __init__: run-state %r (each re-established by reset), settings %r" % (sorted(run_written), sorted(set(ALIASES.get(a, a) for a in W) & SETTINGS)))
